@@ -4,29 +4,8 @@ import (
 	"fmt"
 	"os"
 
-	"verif/harness/checks/c01"
-	"verif/harness/checks/c02"
-	"verif/harness/checks/c03"
-	"verif/harness/checks/c04"
-	"verif/harness/checks/c05"
-	"verif/harness/checks/c06"
-	"verif/harness/checks/c07"
-	"verif/harness/checks/c08"
-	"verif/harness/checks/c09"
 	"verif/harness/vf"
 )
-
-var checks = map[string]func(*vf.Check){
-	"C01": c01.Run,
-	"C02": c02.Run,
-	"C03": c03.Run,
-	"C04": c04.Run,
-	"C05": c05.Run,
-	"C06": c06.Run,
-	"C07": c07.Run,
-	"C08": c08.Run,
-	"C09": c09.Run,
-}
 
 func main() {
 	if len(os.Args) < 3 {
@@ -36,7 +15,7 @@ func main() {
 	id, tier := os.Args[1], os.Args[2]
 	f, ok := checks[id]
 	if !ok || (tier != "quick" && tier != "thorough") {
-		fmt.Println("unknown check or tier")
+		fmt.Println("HARNESS-ERROR: unknown check or tier (in this build variant)")
 		os.Exit(2)
 	}
 	c := vf.New(id, tier)
